@@ -391,51 +391,56 @@ func (f *Forest) Selected(rules []Rule, rootPresent bool, ref string) bool {
 	return f.Fold(rules, ref)
 }
 
-// Tally returns the symbols under which ref is counted.
-func (f *Forest) Tally(rules []Rule, rootPresent bool, ref string) []string {
+// Tally returns the symbols under which ref is counted: the user/built-in
+// groups it is a tallied member of, and separately the built-in buckets
+// ("ignored", "other", "<group>.other").
+func (f *Forest) Tally(rules []Rule, rootPresent bool, ref string) (groups, buckets []string) {
 	if !f.Selected(rules, rootPresent, ref) {
-		return []string{"ignored"}
+		return nil, []string{"ignored"}
 	}
-	out := []string{""}
+	groups = []string{""}
 	any := false
 	for _, g := range f.Top {
-		ss := f.tallyGroup(g, ref)
-		if len(ss) > 0 {
+		gs, bs := f.tallyGroup(g, ref)
+		if len(gs) > 0 {
 			any = true
 		}
-		out = append(out, ss...)
+		groups = append(groups, gs...)
+		buckets = append(buckets, bs...)
 	}
 	if !any && len(f.Top) > 0 {
-		out = append(out, "other")
+		buckets = append(buckets, "other")
 	}
-	return out
+	return groups, buckets
 }
 
-func (f *Forest) tallyGroup(g *Group, ref string) []string {
+func (f *Forest) tallyGroup(g *Group, ref string) (groups, buckets []string) {
 	if len(g.Rules) > 0 {
 		if !f.Fold(g.Rules, ref) {
-			return nil
+			return nil, nil
 		}
-		out := []string{g.Symbol}
+		groups = []string{g.Symbol}
 		any := false
 		for _, k := range g.Kids {
-			ss := f.tallyGroup(k, ref)
-			if len(ss) > 0 {
+			gs, bs := f.tallyGroup(k, ref)
+			if len(gs) > 0 {
 				any = true
 			}
-			out = append(out, ss...)
+			groups = append(groups, gs...)
+			buckets = append(buckets, bs...)
 		}
 		if len(g.Kids) > 0 && !any {
-			out = append(out, g.Symbol+".other")
+			buckets = append(buckets, g.Symbol+".other")
 		}
-		return out
+		return groups, buckets
 	}
-	var sub []string
 	for _, k := range g.Kids {
-		sub = append(sub, f.tallyGroup(k, ref)...)
+		gs, bs := f.tallyGroup(k, ref)
+		groups = append(groups, gs...)
+		buckets = append(buckets, bs...)
 	}
-	if len(sub) == 0 {
-		return nil
+	if len(groups) == 0 {
+		return nil, nil
 	}
-	return append([]string{g.Symbol}, sub...)
+	return append([]string{g.Symbol}, groups...), buckets
 }
